@@ -153,9 +153,22 @@ def cmd_check(pid, tier, seed, nshards=None, examples=None):
             violations.append((fn, clause, msg))
         cfg = mod.BUDGET[tier]
         k = nshards or cfg.get("shards", 8)
+        # coverage-guided engine (atheris), declared by the module as FUZZ = {tier: {...}}; runs beside the Hypothesis shards
+        fuzz_cfg = getattr(mod, "FUZZ", {}).get(tier)
+        fuzz_thread, fuzz_box = None, []
+        if fuzz_cfg and examples is None:
+            import threading
+            from .fuzz import run_atheris
+            fuzz_thread = threading.Thread(target=lambda: fuzz_box.append(run_atheris(pid, seed, scratch, **fuzz_cfg)))
+            fuzz_thread.start()
         results = spawn_shards(pid, tier, seed, k, scratch, examples) if k > 0 else []
+        if fuzz_thread is not None:
+            fuzz_thread.join()
         # optional additional engines (exhaustive enumeration, fuzzing), run in the parent
         extra_reports = []
+        for rep in fuzz_box:
+            extra_reports.append(rep)
+            results.append(rep)
         if hasattr(mod, "extra_engines"):
             for rep in mod.extra_engines(tier, seed, scratch):
                 extra_reports.append(rep)
